@@ -8,14 +8,18 @@ sc = json.load(open(sys.argv[1]))
 sig = sys.argv[2].split(",") if len(sys.argv) > 2 and sys.argv[2] else []
 bad = sys.argv[3].split(",") if len(sys.argv) > 3 and sys.argv[3] else []
 ctx = common.Ctx("DBG", "quick", 1)
-rr = A.run_driver(ctx, [sc], jobs=1)[0]
-res = rr["res"]
+if "events" in sc:      # a saved session (replay file of a trace rejection): no run, just validate
+    res = dict(events=sc["events"])
+    sc = dict(id=sc.get("session", "saved"), cap=0)
+else:
+    rr = A.run_driver(ctx, [sc], jobs=1)[0]
+    res = rr["res"]
 print({k: v for k, v in res.items() if k not in ("events", "gates")})
 ok, info = A.validate(ctx, [(sc["id"], res["events"])], ["r1", "r2", "r3"], sc.get("cap", 0), sig, bad)
 print("accepted:", ok)
 if not ok:
     print(json.dumps({k: v for k, v in info.items() if k != "tlc_tail"}, indent=1))
-    fl = [A.flatten(e) for e in res["events"]]
+    fl = [A.flatten(e) for e in A.merge_env(res["events"])]
     fl = [f for f in fl if f]
     for i, f in enumerate(fl[: info["line_no"] + 1]):
         print(i + 2, f)
